@@ -250,6 +250,11 @@ func moduleInText(mod, text string) bool {
 func judge(b *Build, prop string, segIdx int, seg *Segment, out *RunOut, refs *RefTable) ([]Violation, error) {
 	var vs []Violation
 	if out.Res == nil {
+		if strings.Contains(firstLine(out.Crash), "synctest") {
+			// a goroutine outside the bubble (started from init(), a finalizer) reached a hook: the runtime
+			// refuses that with a fatal error. This simulator cannot schedule such a goroutine.
+			return nil, herr("a goroutine outside the simulation reached a synchronisation hook (%s); segment saved as %s", firstLine(out.Crash), saveTrouble(seg))
+		}
 		if out.Crash != "" && moduleInText(b.Module, panickingStack(out.Crash)) && !strings.Contains(panickingStack(out.Crash), "/zz_simnode.") {
 			vs = append(vs, Violation{Class: "goroutine-panic", Detail: "the process died: " + firstLine(out.Crash), Seg: segIdx, Extra: head(out.Crash, 6000)})
 			return vs, nil
